@@ -87,7 +87,10 @@ def _obs(job):
     from .. import clirun
     vec, mode, eid = job
     obs, extra = clirun.observe(vec, mode)
-    return {"id": eid, "act": "Cli", "argv": vec, "mode": mode, "obs": obs, "args": extra["args"], "stderr_tail": extra["stderr_tail"]}
+    ev = {"id": eid, "act": "Cli", "argv": vec, "mode": mode, "obs": obs, "args": extra["args"], "stderr_tail": extra["stderr_tail"]}
+    if mode == "closedpipe":
+        ev["sink"] = "closed-pipe"
+    return ev
 
 
 def pick(ctx, vecs):
@@ -133,6 +136,15 @@ def run(ctx):
         jobs.append((v, "inprocess", 2 * i))
         if (not ctx.quick) or i % 4 == 0:
             jobs.append((v, "subprocess", 2 * i + 1))
+    # good vectors printing to a standard output whose reader is gone: the wallet cannot have been delivered
+    good = [v for v in vecs if v["file"] == "none" and not v["help"] and v["account"] in ("default", "0", "5") and (v["start"], v["end"]) == ("0", "3")
+            and v["pw"] == "none" and v["arg"] in ("len-12", "master-xprv", "12-words", "128-hex", "32-hex")]
+    seen_cmd = set()
+    for v in good:
+        key = (v["cmd"], v["paranoia"])
+        if key not in seen_cmd and (not ctx.quick or len(seen_cmd) < 6):
+            seen_cmd.add(key)
+            jobs.append((v, "closedpipe", 2 * len(vecs) + 10 + len(seen_cmd)))
     with mp.get_context("fork").Pool(16) as pool:
         events = pool.map(_obs, jobs, chunksize=4)
     for e in events:
